@@ -650,7 +650,7 @@ func r03_5(c *Ctx, r *Report) {
 
 func r03_6(c *Ctx, r *Report) {
 	const rule = "R03.6"
-	r.rule(rule, "Time-zone constant. ONE_THIRD, the only shift added to the ephemeris results in qiHigh/qiLow/shuoHigh/shuoLow/QiAccurate, is exactly 8/24 day (float64(1)/3: the UTC+8 instant), and each of those results adds it exactly once on every path.")
+	r.rule(rule, "Time-zone constant. ONE_THIRD, the only shift added to the ephemeris results in qiHigh/qiLow/shuoHigh/shuoLow/QiAccurate, is exactly 8/24 day (float64(1)/3: the UTC+8 instant), and the value each of those functions returns has it added exactly once on every path — counted in the expression that computes the value, through merges and through helpers the five hand their work to (what goes into a call as an argument is not counted).")
 	sp := c.SSABy["ShouXingUtil"]
 	if sp == nil {
 		r.bad(rule, "package ShouXingUtil", "-", "not loaded")
@@ -664,42 +664,158 @@ func r03_6(c *Ctx, r *Report) {
 	}
 	f, _ := constant.Float64Val(k.Value.Value)
 	r.check(f == third, rule, "ShouXingUtil.ONE_THIRD == 8h/24h", c.pos(k.Pos()), fmt.Sprintf("value %v", f))
-	want := map[string]int{"ShouXingUtil.qiHigh": 2, "ShouXingUtil.shuoHigh": 2, "ShouXingUtil.qiLow": 1, "ShouXingUtil.shuoLow": 1, "ShouXingUtil.QiAccurate": 1}
-	var names []string
-	for n := range want {
-		names = append(names, n)
-	}
-	sort.Strings(names)
-	for _, name := range names {
-		fn := c.Fn(r, rule, name)
-		if fn == nil {
-			continue
+	// how many times the shift has been added into a value: read off the expression that computes it, through
+	// merges (every alternative must agree) and through library helpers (every return must agree); what goes into
+	// a call as an argument is not counted (the result of dtT(t) is a correction, not a shifted instant)
+	shiftMemo := map[*ssa.Function]bool{}
+	var mayShift func(fn *ssa.Function, depth int) bool
+	mayShift = func(fn *ssa.Function, depth int) bool {
+		if v, ok := shiftMemo[fn]; ok {
+			return v
 		}
-		n := 0
-		for _, b := range fn.Blocks {
-			for _, ins := range b.Instrs {
-				if bo, ok := ins.(*ssa.BinOp); ok && bo.Op == token.ADD && isFloatType(bo.Type()) {
-					for _, op := range []ssa.Value{bo.X, bo.Y} {
-						if kc, ok := op.(*ssa.Const); ok && kc.Value != nil {
-							if v, _ := constant.Float64Val(kc.Value); v == third {
-								n++
-							}
+		shiftMemo[fn] = false // cycle guard
+		res := floatConstsOf(fn)[third]
+		if !res && depth < 6 {
+			for _, b := range fn.Blocks {
+				for _, ins := range b.Instrs {
+					if call, ok := ins.(*ssa.Call); ok {
+						if g := call.Common().StaticCallee(); g != nil && g.Pkg != nil && g.Pkg.Pkg.Name() == "ShouXingUtil" && g.Blocks != nil && mayShift(g, depth+1) {
+							res = true
 						}
 					}
 				}
 			}
 		}
-		// one addition per return path: straight-line functions have one, the two *High functions recompute once in a branch
-		r.check(n == want[name], rule, name+" shifts its result to UTC+8 once per path", c.fnPos(fn), fmt.Sprintf("%d additions of ONE_THIRD (expected %d: one per alternative result)", n, want[name]))
+		shiftMemo[fn] = res
+		return res
 	}
-	// nothing else shifts
-	for _, fn := range c.Funcs {
-		if fn.Pkg == nil || fn.Pkg.Pkg.Name() != "ShouXingUtil" || want[fname(fn)] > 0 {
+	var shifts func(v ssa.Value, depth int) (int, bool)
+	shifts = func(v ssa.Value, depth int) (int, bool) {
+		if depth > 30 {
+			return 0, false
+		}
+		switch x := v.(type) {
+		case *ssa.BinOp:
+			if !isFloatType(x.Type()) {
+				return 0, true
+			}
+			isThird := func(o ssa.Value) bool {
+				kc, ok := o.(*ssa.Const)
+				if !ok || kc.Value == nil {
+					return false
+				}
+				f, _ := constant.Float64Val(kc.Value)
+				return f == third
+			}
+			switch x.Op {
+			case token.ADD:
+				if isThird(x.Y) {
+					n, ok := shifts(x.X, depth+1)
+					return n + 1, ok
+				}
+				if isThird(x.X) {
+					n, ok := shifts(x.Y, depth+1)
+					return n + 1, ok
+				}
+				a, ok1 := shifts(x.X, depth+1)
+				bb, ok2 := shifts(x.Y, depth+1)
+				return a + bb, ok1 && ok2
+			case token.SUB:
+				a, ok1 := shifts(x.X, depth+1)
+				bb, ok2 := shifts(x.Y, depth+1)
+				return a - bb, ok1 && ok2
+			case token.MUL, token.QUO:
+				// a scaled value carries a shift only if one of the factors does (then it is no longer the plain shift)
+				a, ok1 := shifts(x.X, depth+1)
+				bb, ok2 := shifts(x.Y, depth+1)
+				if a != 0 || bb != 0 {
+					return 0, false
+				}
+				return 0, ok1 && ok2
+			}
+			return 0, true
+		case *ssa.Phi:
+			n, set := 0, false
+			for _, e := range x.Edges {
+				if e == ssa.Value(x) {
+					continue
+				}
+				k, ok := shifts(e, depth+1)
+				if !ok || (set && k != n) {
+					return 0, false
+				}
+				n, set = k, true
+			}
+			return n, set
+		case *ssa.Call:
+			callee := x.Common().StaticCallee()
+			if callee == nil || !inlineLibrary(callee) || callee.Pkg == nil || callee.Pkg.Pkg.Name() != "ShouXingUtil" || !mayShift(callee, 0) {
+				return 0, true // nothing below this call adds the constant
+			}
+			n, set := 0, false
+			for _, ret := range returnsIn(callee, nil) {
+				if len(ret.Results) != 1 {
+					return 0, false
+				}
+				k, ok := shifts(ret.Results[0], depth+1)
+				if !ok || (set && k != n) {
+					return 0, false
+				}
+				n, set = k, true
+			}
+			return n, set
+		case *ssa.Convert:
+			return shifts(x.X, depth+1)
+		}
+		return 0, true
+	}
+	results := []string{"ShouXingUtil.QiAccurate", "ShouXingUtil.qiHigh", "ShouXingUtil.qiLow", "ShouXingUtil.shuoHigh", "ShouXingUtil.shuoLow"}
+	reached := map[*ssa.Function]bool{}
+	for _, name := range results {
+		fn := c.Fn(r, rule, name)
+		if fn == nil {
 			continue
 		}
-		if floatConstsOf(fn)[third] {
-			r.bad(rule, fname(fn)+" also adds ONE_THIRD", c.fnPos(fn), "a second time-zone shift outside the five result functions")
+		for _, f := range helperTree(c, fn, nil) {
+			reached[f.fn] = true
 		}
+		var got []string
+		okk := true
+		for _, ret := range returnsIn(fn, nil) {
+			if len(ret.Results) != 1 {
+				continue
+			}
+			n, ok := shifts(ret.Results[0], 0)
+			got = append(got, fmt.Sprintf("%d (decided: %v)", n, ok))
+			if !ok || n != 1 {
+				okk = false
+			}
+		}
+		r.check(okk && len(got) > 0, rule, name+" shifts its result to UTC+8 once per path", c.fnPos(fn), fmt.Sprintf("additions of ONE_THIRD in the returned value, per return: %v", got))
+	}
+	// nothing else shifts: a function that adds the constant is one of the five or a helper only they reach
+	callersOutside := func(fn *ssa.Function) bool {
+		for _, site := range c.callSitesOf(fn) {
+			if !reached[site.Parent()] {
+				return true
+			}
+		}
+		return false
+	}
+	for _, fn := range c.Funcs {
+		if fn.Pkg == nil || fn.Pkg.Pkg.Name() != "ShouXingUtil" || !floatConstsOf(fn)[third] {
+			continue
+		}
+		isResult := false
+		for _, n := range results {
+			if fname(fn) == n {
+				isResult = true
+			}
+		}
+		if isResult || (reached[fn] && !callersOutside(fn)) {
+			continue
+		}
+		r.bad(rule, fname(fn)+" also adds ONE_THIRD", c.fnPos(fn), "a time-zone shift outside the five result functions and the helpers only they call")
 	}
 }
 
